@@ -140,15 +140,21 @@ def run_check(pid, tier, replay=None):
     ex = mod.explore(ctx, extended=False)
     broken_tie = bool(failed) or bool(ex.disagreements)
     unlisted = [v for v in ex.violations if not any(v.matches(f) for f in known)]
-    if broken_tie and not unlisted:
+    # change-directed search: a modelled function whose source differs from the recorded baseline (srcmap.json) is not a
+    # violation, but it is met with the extended search whether or not the quick-size correspondence noticed anything
+    from . import srcmap
+    src_changed = srcmap.changed(pid)
+    if (broken_tie or src_changed) and not unlisted:
         # extended failing-input search
-        ex2 = mod.explore(ctx, extended=True, focus={"failed": failed, "disagreements": ex.disagreements[:50]})
+        ex2 = mod.explore(ctx, extended=True, focus={"failed": failed, "disagreements": ex.disagreements[:50], "changed": src_changed})
         ex.evaluations += ex2.evaluations; ex.distinct |= ex2.distinct
         ex.violations += ex2.violations; ex.disagreements += ex2.disagreements
         ex.traces_validated += ex2.traces_validated
         for k, v in ex2.hist.items():
             ex.hist[k] = ex.hist.get(k, 0) + v
         unlisted = [v for v in ex.violations if not any(v.matches(f) for f in known)]
+
+        broken_tie = bool(failed) or bool(ex.disagreements)
 
     # 5+6. classify, verdict
     rc = 0
@@ -202,6 +208,7 @@ def run_check(pid, tier, replay=None):
         "known_findings_listed": [f["id"] for f in known],
         "oracle_violations_total": len(ex.violations), "oracle_violations_unlisted": len(unlisted),
         "exhaustive": ex.exhaustive, "notes": ex.notes[:20],
+        "modelled_source_functions_changed_since_baseline": src_changed[:40],
         "partial_theorems": getattr(mod, "PARTIAL", []),
     }
     common.write_evidence(pid, tier, seed, cov, time.time() - t0, nviol, getattr(mod, "ASSUMPTIONS", []))
